@@ -42,15 +42,15 @@ type TimedOpts struct {
 }
 
 type Timed struct {
-	W         *World
-	O         TimedOpts
-	resetAt   map[*Node]time.Time
-	nextSync  map[*Node]time.Time
-	Events    int
-	HitLimit  string // "", "horizon", "events"
-	LastFault time.Duration
-	Done      bool
-	HealView  int
+	W          *World
+	O          TimedOpts
+	resetAt    map[*Node]time.Time
+	nextSync   map[*Node]time.Time
+	Events     int
+	HitLimit   string // "", "horizon", "events"
+	LastFault  time.Duration
+	Done       bool
+	HealView   int
 	horizonSet bool
 }
 
